@@ -56,7 +56,8 @@ PROPS = {
                       "unchanged); get_single_line proved to apply it to the normalised line before the line is stored or seen by anyone "
                       "(fixed form, option on); the three sentinel patterns enumerated against the column rules",
                 trusted=TRUSTED,
-                explanation="[P] R11, R7 placement; [E] R12 patterns; free-form placement inside get_source_item not yet under contract"),
+                explanation="[P] R11, R7 placement, R9a (nested reader keeps the option); [E] R12 patterns; free-form placement inside get_source_item not under contract",
+                witnesses=["c15_sentinel_statement_first_in_anonymous_main_program"]),
     "C16": dict(level="other", enum=[("enum_block_table.py", ["F12.scoping", "F12.table#start", "F12.table#flags", "F12.table#labelled"]), ("enum_frame.py", ["frame.scope_calls"]), "bounded_scopes.py"],
                 witnesses=["c16_block_inside_nonblock_do_gets_two_tables", "c16_derived_type_declaration_does_not_shadow"],
                 claim="symbol-table operations proved (enter/exit/remove/lookup of tables over the ghost stack), scope entry in BlockBase.match "
